@@ -10,6 +10,7 @@ mod c05;
 mod c06;
 mod c10;
 mod c12;
+mod c15;
 mod c16;
 mod c17;
 mod c18;
@@ -218,6 +219,7 @@ fn main() {
         "C06" => { c06::run(&mut ctx); true }
         "C10" => { c10::run(&mut ctx); true }
         "C12" => { c12::run(&mut ctx); true }
+        "C15" => { c15::run(&mut ctx); true }
         "C16" => { c16::run(&mut ctx); true }
         "C17" => { c17::run(&mut ctx); true }
         "C18" => { c18::run(&mut ctx); true }
